@@ -62,6 +62,9 @@ mutual
     | fuel + 1, n + 1, r =>
       match r with
       | m :: a :: r' =>
+        -- N / O: named / omitempty with the *default* alias: the harness sends the alias the Go side must derive from
+        -- the field name (its own snake_case), followed by the field name, which the model does not need
+        let (m, r') := if m = "N" then ("n", r'.drop 1) else if m = "O" then ("o", r'.drop 1) else (m, r')
         match modeOf m, unhex a, parseTyF fuel r' with
         | some mode, some alias, some (t, r'') =>
           (parseFieldsF fuel n r'').map fun (fs, r''') => (.cons mode alias t fs, r''')
@@ -201,6 +204,14 @@ def decodePart (dst : GoType) (doc : Val) : List String :=
   | .panic => ["panic", "decode"]
 
 def step (st : Unit) : List String → Unit × String
+  | ["pt", ms, sub, off] =>
+    -- the RFC 3339 text `MarshalText` gives a *time.Time (Model/CodecTime.lean)
+    match ms.toInt?, sub.toNat?, off.toInt? with
+    | some ms, some sub, some off =>
+      match rfc3339 ms sub off with
+      | some t => (st, "T " ++ hexOf t)
+      | none => (st, "T none")
+    | _, _, _ => (st, "bad-op")
   | op :: rest =>
     if op = "rt" ∨ op = "as" ∨ op = "js" then
       match parseTyF (rest.length + 2) rest with
